@@ -30,20 +30,38 @@ META = {
     'assumptions': [
         'double fields are exact reals',
         'well-formed inputs (0 <= start <= end <= total_time, event times >= 0)',
-        'stretch: section annotations are left out of the input (the code does '
-        'not scale them and the statement is ambiguous about them; neither '
-        'behaviour is asserted)',
+        'stretch and adjust: section annotations are not asserted either way '
+        '(the code does not move them, the docstring of adjust says they are '
+        'ignored, the statement says every event moves); stretch inputs carry '
+        'none',
+        'rectify: times past total_time (right of the interpolation grid) and '
+        'repeat: events exactly on the cut are not asserted',
+        'concatenate with an empty durations list, repeat with '
+        'sequence_duration=0 (both falsy, treated as absent) are not run',
     ],
     'bounds': {
-        'quick': 'shift/stretch: 1-2 notes + one event of every kind; '
-                 'concatenate: 2 sequences x 1 note + tempo/meter/key each; '
-                 'repeat: <=3 copies; adjust: 1-2 notes, slopes from '
-                 '{0,1/2,1,2,-1}; rectify: <=2 beats, bpm in {60,120}',
-        'thorough': 'concatenate 3 sequences; adjust 2 notes x all slope '
-                    'pairs; rectify 3 beats',
+        'quick': 'shift/stretch: 1-2 notes + one or two events of every kind, '
+                 'section groups, stretch in_place (also twice on one object), '
+                 'both kinds of quantization rejected; '
+                 'concatenate: 1-2 full pieces x 1 note (every event kind, '
+                 'symbolic meter denominator / key mode / ticks_per_quarter / '
+                 'instrument, program, drum flag), 3-5 lean pieces, A-B-A '
+                 'tempo / key / meter / mode over 3 pieces, metadata dedupe '
+                 'over 2 pieces; '
+                 'repeat: <=3 copies, tempo + key signature + pedal change; '
+                 'adjust: 1-2 notes, slopes from {0,1/2,1,2,-1}, '
+                 'minimum_duration absent / 0 / positive with 1-2 notes, two '
+                 'events of every kind; '
+                 'rectify: <=2 beats, bpm in {60,97,120}, one event of every '
+                 'other kind incl. a non-beat annotation, alignment array',
+        'thorough': 'concatenate 3 full pieces, 2 pieces x 2 notes; adjust 1 '
+                    'note x all slope pairs, 2 notes x selected pairs (also '
+                    'with two events of every kind); rectify 3 beats',
     },
     'outside': ['more events than the bounds', 'float rounding',
-                'symbolic slopes of the time map'],
+                'symbolic slopes of the time map',
+                'merge_sequences / expand_section_groups (other callers of '
+                'the same machinery)'],
 }
 
 _EVENT_FIELDS = ('time_signatures', 'key_signatures', 'tempos', 'pitch_bends',
@@ -59,10 +77,52 @@ def _map_times(c, exp, f, fields):
       e.time = f(e.time)
 
 
+def _second_events(c, ns, info, section=True, shared=False):
+  """A second event of every kind (own symbolic time and payload, stored after
+  the first), so that a loop that stops after the first element shows."""
+  st = [None]
+
+  def t(name):
+    if shared:
+      if st[0] is None:
+        st[0] = c.real('x_t', 0)
+      return st[0]
+    return c.real(name, 0)
+
+  ev = info['events']
+  x = t('ts2_t')
+  ns.time_signatures.add(time=x, numerator=c.int('ts2_n', 1, 12), denominator=8)
+  ev.append(('time_signatures', 1, x))
+  x = t('ks2_t')
+  ns.key_signatures.add(time=x, key=c.int('ks2_k', 0, 11))
+  ev.append(('key_signatures', 1, x))
+  if any(name == 'tempos' for name, _, _ in ev):
+    x = t('tp2_t')
+    ns.tempos.add(time=x, qpm=c.real('tp2_q', 10, 480))
+    ev.append(('tempos', 1, x))
+  x = t('pb2_t')
+  ns.pitch_bends.add(time=x, bend=c.int('pb2_b', -8192, 8191))
+  ev.append(('pitch_bends', 1, x))
+  x = t('cc2_t')
+  ns.control_changes.add(time=x, control_number=64,
+                         control_value=c.int('cc2_v', 0, 127))
+  ev.append(('control_changes', 1, x))
+  x = t('ta2_t')
+  ns.text_annotations.add(time=x, text='beat', annotation_type=2)
+  ev.append(('text_annotations', 1, x))
+  if section:
+    x = t('sa2_t')
+    ns.section_annotations.add(time=x, section_id=c.int('sa2_id', 0, 5))
+    ev.append(('section_annotations', 1, x))
+
+
 def h_shift(c):
   pb, sl = c.pb, c.mod('sequences_lib')
   ns = pb.NoteSequence()
-  info = K.populate_full(c, ns, c.params['N'])
+  info = K.populate_full(c, ns, c.params['N'],
+                         groups=bool(c.params.get('two')))
+  if c.params.get('two'):
+    _second_events(c, ns, info)
   s = c.real('shift')
   before = c.snapshot(ns)
   res, err = c.raises(sl.shift_sequence_times, ns, s)
@@ -84,14 +144,22 @@ def h_shift(c):
 def h_stretch(c):
   pb, sl = c.pb, c.mod('sequences_lib')
   ns = pb.NoteSequence()
-  info = K.populate_full(c, ns, c.params['N'], section=False)
+  info = K.populate_full(c, ns, c.params['N'], section=False,
+                         groups=bool(c.params.get('two')))
+  if c.params.get('two'):
+    _second_events(c, ns, info, section=False)
   f = c.real('factor')
   c.assume(f > 0)
   before = c.snapshot(ns)
-  res = sl.stretch_note_sequence(ns, f)
-  c.check(c.msg_eq(ns, before), 'input unchanged')
-  c.check(res is not ns, 'a new object is returned')
-  exp = copy.deepcopy(ns)
+  if c.params.get('in_place'):
+    # in_place=True: "the input note_sequence is edited directly"
+    res = sl.stretch_note_sequence(ns, f, in_place=True)
+    c.check(res is ns, 'in_place: the input object itself is returned')
+  else:
+    res = sl.stretch_note_sequence(ns, f)
+    c.check(c.msg_eq(ns, before), 'input unchanged')
+    c.check(res is not ns, 'a new object is returned')
+  exp = copy.deepcopy(before)
   _map_times(c, exp, lambda t: t * f, _EVENT_FIELDS)
   exp.total_time = info['tt'] * f
   for t in exp.tempos:
@@ -100,12 +168,29 @@ def h_stretch(c):
           'result = input with every time * factor and qpm / factor')
   c.cover('factor exactly 1', c.eq(f, 1))
   c.cover('factor below 1', f < 1)
+  if c.params.get('in_place'):
+    # a second in-place call on the same object composes with the first
+    f2 = c.choice('factor2', [2, 0.5, 1.0])
+    res2 = sl.stretch_note_sequence(ns, f2, in_place=True)
+    c.check(res2 is ns, 'in_place: the input object itself is returned')
+    exp2 = copy.deepcopy(before)
+    _map_times(c, exp2, lambda t: t * f * f2, _EVENT_FIELDS)
+    exp2.total_time = info['tt'] * f * f2
+    for t in exp2.tempos:
+      t.qpm = t.qpm / f / f2
+    c.check(c.msg_eq(ns, exp2),
+            'in_place twice = every time * both factors, qpm / both')
 
 
 def h_stretch_quantized(c):
   pb, sl = c.pb, c.mod('sequences_lib')
   ns = pb.NoteSequence()
-  ns.quantization_info.steps_per_quarter = c.int('spq', 1, 96)
+  # either kind of quantization (relative: steps per quarter, absolute: steps
+  # per second) makes the sequence "quantized"
+  if c.choice('kind', ['relative', 'absolute']) == 'relative':
+    ns.quantization_info.steps_per_quarter = c.int('spq', 1, 96)
+  else:
+    ns.quantization_info.steps_per_second = c.int('sps', 1, 100)
   res, err = c.raises(sl.stretch_note_sequence, ns, c.real('f', 1, 2))
   c.check(err is not None and isinstance(err, sl.QuantizationStatusError),
           'quantized input rejected')
@@ -115,9 +200,16 @@ def h_stretch_quantized(c):
 
 
 def _mk_piece(c, pb, i, n_notes, lean=False):
+  """One piece.  State events are stored as (time, value tuple), the value
+  tuple holding EVERY field but the time (an event is redundant only when it
+  "differs from the previous event of the same type only by time")."""
   P = 'q%d_' % i
   ns = pb.NoteSequence()
-  notes = K.add_notes(c, ns, n_notes, prefix=P + 'n')
+  if lean:
+    notes = K.add_notes(c, ns, n_notes, prefix=P + 'n')
+  else:
+    notes = K.add_notes(c, ns, n_notes, prefix=P + 'n', instruments=(0, 3),
+                        drums=True, programs=(0, 127))
   tt = K.well_formed_total(c, ns, notes, name=P + 'tt')
   if lean:
     # notes and one control change only (the state events multiply the case
@@ -128,23 +220,47 @@ def _mk_piece(c, pb, i, n_notes, lean=False):
         P + 'cc_v', 0, 127))
     d = dict(ns=ns, notes=notes, tt=tt, cc=cc)
     if lean == 'tempo':
-      d['tp'] = (0, c.choice(P + 'tp_q', [120, 90]))
-      ns.tempos.add(time=0, qpm=d['tp'][1])
+      d['tp'] = (0, (c.choice(P + 'tp_q', [120, 90]),))
+      ns.tempos.add(time=0, qpm=d['tp'][1][0])
     elif lean == 'key':
-      d['ks'] = (0, c.choice(P + 'ks_k', [0, 7]))
-      ns.key_signatures.add(time=0, key=d['ks'][1])
+      d['ks'] = (0, (c.choice(P + 'ks_k', [0, 7]), 0))
+      ns.key_signatures.add(time=0, key=d['ks'][1][0])
+    elif lean == 'meter':
+      # same numerator with another denominator is NOT a repetition
+      d['ts'] = (0, c.choice(P + 'ts_nd', [(4, 4), (4, 8), (3, 4)]))
+      ns.time_signatures.add(time=0, numerator=d['ts'][1][0],
+                             denominator=d['ts'][1][1])
+    elif lean == 'mode':
+      # same key in the other mode is NOT a repetition
+      d['ks'] = (0, c.choice(P + 'ks_km', [(0, 0), (0, 1), (9, 1)]))
+      ns.key_signatures.add(time=0, key=d['ks'][1][0], mode=d['ks'][1][1])
     return d
-  tp = (c.real(P + 'tp_t', 0), c.real(P + 'tp_q', 10, 480))
-  ns.tempos.add(time=tp[0], qpm=tp[1])
-  ts = (c.real(P + 'ts_t', 0), c.int(P + 'ts_n', 1, 12))
-  ns.time_signatures.add(time=ts[0], numerator=ts[1], denominator=4)
-  ks = (c.real(P + 'ks_t', 0), c.int(P + 'ks_k', 0, 11))
-  ns.key_signatures.add(time=ks[0], key=ks[1])
+  tp = (c.real(P + 'tp_t', 0), (c.real(P + 'tp_q', 10, 480),))
+  ns.tempos.add(time=tp[0], qpm=tp[1][0])
+  ts = (c.real(P + 'ts_t', 0),
+        (c.int(P + 'ts_n', 1, 12), 4 * c.int(P + 'ts_d4', 1, 2)))
+  ns.time_signatures.add(time=ts[0], numerator=ts[1][0], denominator=ts[1][1])
+  ks = (c.real(P + 'ks_t', 0),
+        (c.int(P + 'ks_k', 0, 11), c.int(P + 'ks_m', 0, 1)))
+  ns.key_signatures.add(time=ks[0], key=ks[1][0], mode=ks[1][1])
   cc = c.real(P + 'cc_t', 0)
-  ns.control_changes.add(time=cc, control_number=64, control_value=c.int(
-      P + 'cc_v', 0, 127))
-  ns.ticks_per_quarter = 220
-  return dict(ns=ns, notes=notes, tt=tt, tp=tp, ts=ts, ks=ks, cc=cc)
+  ns.control_changes.add(time=cc, control_number=c.int(P + 'cc_n', 0, 127),
+                         control_value=c.int(P + 'cc_v', 0, 127),
+                         instrument=c.int(P + 'cc_i', 0, 3))
+  d = dict(ns=ns, notes=notes, tt=tt, tp=tp, ts=ts, ks=ks, cc=cc)
+  # stateless events of the other kinds
+  d['pb'] = c.real(P + 'pb_t', 0)
+  ns.pitch_bends.add(time=d['pb'], bend=c.int(P + 'pb_b', -8192, 8191),
+                     instrument=c.int(P + 'pb_i', 0, 3))
+  d['ta'] = c.real(P + 'ta_t', 0)
+  ns.text_annotations.add(time=d['ta'], text='t%d' % i,
+                          annotation_type=c.int(P + 'ta_ty', 0, 2))
+  d['sa'] = c.real(P + 'sa_t', 0)
+  ns.section_annotations.add(time=d['sa'], section_id=c.int(P + 'sa_id', 0, 5))
+  # a global value: "only the final value will be used"
+  d['tpq'] = c.int(P + 'tpq', 1, 960)
+  ns.ticks_per_quarter = d['tpq']
+  return d
 
 
 def _dedup(c, events):
@@ -181,6 +297,7 @@ def h_concat(c):
     c.cover('short duration rejected')
     return
   c.check(c.Not(short), 'too short duration accepted')
+  c.check(all(res is not p['ns'] for p in pieces), 'a new object is returned')
   # offsets
   offs = []
   cur = 0
@@ -203,17 +320,42 @@ def h_concat(c):
                     c.eq(m.end_time, n['end_time'] + offs[i]),
                     c.eq(m.pitch, n['pitch']), c.eq(m.velocity, n['velocity'])),
               'note of piece i placed after the summed durations before it')
+      if 'instrument' in n:
+        c.check(c.And(c.eq(m.instrument, n['instrument']),
+                      c.eq(m.program, n['program']),
+                      c.eq(m.is_drum, n['is_drum'])),
+                'instrument, program and drum flag of every note kept')
+  c.check(len(res.control_changes) == M,
+          'every control change kept, none invented')
   for i, p in enumerate(pieces):
     c.check(c.eq(res.control_changes[i].time, p['cc'] + offs[i]),
             'control change moved with its piece')
+  # stateless events: everything but the time unchanged, time moved by the
+  # offset of the piece
+  for name, key in (('control_changes', 'cc'), ('pitch_bends', 'pb'),
+                    ('text_annotations', 'ta'), ('section_annotations', 'sa')):
+    if key not in pieces[0]:
+      c.check(len(getattr(res, name)) == 0, 'no %s invented' % name)
+      continue
+    got_ev = list(getattr(res, name))
+    c.check(len(got_ev) == M, '%s: every event kept, none invented' % name)
+    for i, p in enumerate(pieces):
+      e = copy.deepcopy(getattr(p['ns'], name)[0])
+      e.time = p[key] + offs[i]
+      c.check(c.msg_eq(got_ev[i], e),
+              '%s: moved with its piece, nothing else changed' % name)
+  if 'tpq' in pieces[0]:
+    c.check(c.eq(res.ticks_per_quarter, pieces[-1]['tpq']),
+            'global value (ticks_per_quarter): the final piece wins')
   c.check(c.eq(res.total_time, total), 'total_time')
   for name, key, val in (('tempos', 'tp', lambda e: (e.qpm,)),
-                         ('time_signatures', 'ts', lambda e: (e.numerator,)),
-                         ('key_signatures', 'ks', lambda e: (e.key,))):
+                         ('time_signatures', 'ts',
+                          lambda e: (e.numerator, e.denominator)),
+                         ('key_signatures', 'ks', lambda e: (e.key, e.mode))):
     if lean and key not in pieces[0]:
       c.check(len(getattr(res, name)) == 0, 'no %s invented' % name)
       continue
-    evs = [(p[key][0] + offs[i], (p[key][1],)) for i, p in enumerate(pieces)]
+    evs = [(p[key][0] + offs[i], p[key][1]) for i, p in enumerate(pieces)]
     kept = _dedup(c, evs)
     got = [(e.time, val(e)) for e in getattr(res, name)]
     c.check(len(got) == len(kept), '%s: only redundant events dropped' % name)
@@ -223,8 +365,64 @@ def h_concat(c):
   c.check(not res.HasField('subsequence_info'), 'subsequence_info cleared')
   if M >= 2 and not lean:
     c.cover('second tempo repeats the first (dropped)',
-            c.eq(pieces[0]['tp'][1], pieces[1]['tp'][1]))
+            c.eq(pieces[0]['tp'][1][0], pieces[1]['tp'][1][0]))
+    c.cover('same numerator, other denominator (kept)',
+            c.And(c.eq(pieces[0]['ts'][1][0], pieces[1]['ts'][1][0]),
+                  c.Not(c.eq(pieces[0]['ts'][1][1], pieces[1]['ts'][1][1]))))
+    c.cover('same key, other mode (kept)',
+            c.And(c.eq(pieces[0]['ks'][1][0], pieces[1]['ks'][1][0]),
+                  c.Not(c.eq(pieces[0]['ks'][1][1], pieces[1]['ks'][1][1]))))
     c.cover('first piece has zero duration', c.eq(offs[1], 0))
+
+
+def h_concat_meta(c):
+  """sequence_metadata through concatenation: "Fields in sequence_metadata are
+  considered redundant if the same string is repeated" (composers and genre
+  keep their first occurrences in order); the title is a global value."""
+  pb, sl = c.pb, c.mod('sequences_lib')
+  M = c.params['M']
+  opts = [None, (['a'], ['g']), (['b', 'a'], ['g', 'a']),
+          (['a', 'a', 'c'], ['h'])]
+  pieces, metas = [], []
+  for i in range(M):
+    ns = pb.NoteSequence()
+    notes = K.add_notes(c, ns, 1, prefix='q%d_n' % i)
+    K.well_formed_total(c, ns, notes, name='q%d_tt' % i)
+    m = c.choice('meta%d' % i, opts if i else opts[1:])
+    if m is not None:
+      ns.sequence_metadata.title = 'title%d' % i
+      for x in m[0]:
+        ns.sequence_metadata.composers.append(x)
+      for x in m[1]:
+        ns.sequence_metadata.genre.append(x)
+    pieces.append(ns)
+    metas.append(m)
+  befores = [c.snapshot(p) for p in pieces]
+  res = sl.concatenate_sequences(pieces)
+  for p, b in zip(pieces, befores):
+    c.check(c.msg_eq(p, b), 'inputs unchanged')
+
+  def uniq(lists):
+    out = []
+    for l in lists:
+      for x in l:
+        if x not in out:
+          out.append(x)
+    return out
+
+  c.check(list(res.sequence_metadata.composers) ==
+          uniq([m[0] for m in metas if m is not None]),
+          'composers: first occurrences in order, repeats dropped')
+  c.check(list(res.sequence_metadata.genre) ==
+          uniq([m[1] for m in metas if m is not None]),
+          'genre: first occurrences in order, repeats dropped')
+  last = max(i for i, m in enumerate(metas) if m is not None)
+  c.check(res.sequence_metadata.title == 'title%d' % last,
+          'global value (title): the final piece that has one wins')
+  c.check(len(res.notes) == M, 'every note kept, none invented')
+  c.cover('a composer repeated across pieces',
+          len(uniq([m[0] for m in metas if m is not None])) <
+          sum(len(set(m[0])) for m in metas if m is not None))
 
 
 def h_concat_mismatch(c):
@@ -243,7 +441,15 @@ def h_repeat(c):
   notes = K.add_notes(c, ns, n_notes)
   tt = K.well_formed_total(c, ns, notes)
   c.assume(tt > 0)
-  ns.tempos.add(time=0, qpm=c.real('q', 10, 480))
+  q = c.real('q', 10, 480)
+  ns.tempos.add(time=0, qpm=q)
+  events = c.params.get('events', False)
+  if events:
+    # a key signature and a sustain-pedal change somewhere in the piece
+    ks_t, ks_k = c.real('ks_t', 0), c.int('ks_k', 0, 11)
+    ns.key_signatures.add(time=ks_t, key=ks_k)
+    cc_t, cc_v = c.real('cc_t', 0), c.int('cc_v', 0, 127)
+    ns.control_changes.add(time=cc_t, control_number=64, control_value=cc_v)
   use_sd = c.params['seq_dur']
   D = tt
   sd = None
@@ -267,9 +473,32 @@ def h_repeat(c):
   c.check(K.multiset_eq(c, got, exp),
           'notes = copies at multiples of the duration, cut at the target')
   c.check(len(res.tempos) == 1, 'repeated tempo dropped as redundant')
+  c.check(c.And(c.eq(res.tempos[0].qpm, q), c.eq(res.tempos[0].time, 0)),
+          'the tempo of the piece, at time 0')
   c.check(not res.HasField('subsequence_info'), 'subsequence_info cleared')
   for m in res.notes:
     c.check(m.end_time <= dur, 'nothing past the requested duration')
+    c.check(m.end_time <= res.total_time, 'total_time covers every note')
+  c.check(res.total_time <= dur, 'total_time not past the requested duration')
+  if events:
+    # the copies of the key signature repeat its value: only the first stays,
+    # unless the cut removes it (an event exactly on the cut: not asserted)
+    if bool(ks_t < dur):
+      c.check(len(res.key_signatures) == 1 and bool(c.And(
+          c.eq(res.key_signatures[0].time, ks_t),
+          c.eq(res.key_signatures[0].key, ks_k))),
+              'key signature: first copy kept at its time, repeats dropped')
+    elif bool(ks_t > dur):
+      c.check(len(res.key_signatures) == 0, 'key signature past the cut removed')
+    # pedal changes are not redundant: one per copy, up to the cut
+    cc_times = [cc_t + r * D for r in range(c.params['max_rep'])]
+    if not bool(c.Or([c.eq(t, dur) for t in cc_times])):
+      got_cc = [(e.time, e.control_number, e.control_value)
+                for e in res.control_changes]
+      c.check(K.multiset_eq(c, got_cc, [(t < dur, (t, 64, cc_v))
+                                        for t in cc_times]),
+              'pedal change repeated with every copy, cut at the target')
+      c.cover('pedal change of the second copy kept', cc_times[1] < dur)
   c.cover('target is an exact multiple of the duration', c.eq(dur, 2 * D))
 
 
@@ -288,7 +517,11 @@ def _num(c, x):
 def h_adjust(c):
   pb, sl = c.pb, c.mod('sequences_lib')
   ns = pb.NoteSequence()
-  info = K.populate_full(c, ns, c.params['N'])
+  info = K.populate_full(c, ns, c.params['N'],
+                         groups=bool(c.params.get('two')))
+  if c.params.get('two'):
+    # a second event of every kind, all at one further symbolic instant
+    _second_events(c, ns, info, shared=True)
   m1, m2 = _num(c, c.params['m1']), _num(c, c.params['m2'])
   bp = c.real('bp', 0)
   off = c.real('off', -4, 4)
@@ -352,10 +585,23 @@ def h_adjust(c):
                'key_signatures', 'text_annotations'):
     for e in getattr(expm, name):
       e.time = g(e.time)
+    c.check(len(getattr(adj, name)) == len(getattr(expm, name)),
+            '%s: no event dropped or invented' % name)
     c.check(c.And([c.msg_eq(a, b) for a, b in zip(getattr(adj, name),
                                                  getattr(expm, name))]),
             '%s mapped, nothing else changed' % name)
   c.check(len(adj.tempos) == 0, 'tempos deleted')
+  # everything that carries no time (id, ticks_per_quarter, part / instrument
+  # infos, source info, metadata, section groups, ...) is as in the input
+  # (section annotations are left out of the comparison: the docstring says
+  # they are ignored, the statement says every event is mapped)
+  rest_a, rest_b = copy.deepcopy(adj), copy.deepcopy(ns)
+  for m in (rest_a, rest_b):
+    for name in ('notes', 'tempos', 'total_time', 'control_changes',
+                 'pitch_bends', 'time_signatures', 'key_signatures',
+                 'text_annotations', 'section_annotations'):
+      m.ClearField(name)
+  c.check(c.msg_eq(rest_a, rest_b), 'every field without a time unchanged')
   c.cover('a note collapses to zero length', collapsed[0])
   c.cover('accepted')
 
@@ -365,14 +611,28 @@ def h_rectify(c):
   TA = pb.NoteSequence.TextAnnotation
   B = c.params['B']
   bpm = c.params['bpm']
+  extras = c.params.get('extras', False)
   ns = pb.NoteSequence()
   notes = K.add_notes(c, ns, 1)
   tt = K.well_formed_total(c, ns, notes)
   beats = []
+  ev_t = None
   for i in range(B):
     t = c.real('b%d' % i, 0)
     ns.text_annotations.add(time=t, annotation_type=TA.BEAT)
     beats.append(t)
+    if extras and i == 0:
+      # one event of every other kind at a common symbolic instant; the
+      # annotation that is NOT a beat is stored between the beats
+      ev_t = c.real('ev_t', 0)
+      ns.text_annotations.add(time=ev_t, text='Cmaj7',
+                              annotation_type=TA.CHORD_SYMBOL)
+      ns.time_signatures.add(time=ev_t, numerator=3, denominator=4)
+      ns.key_signatures.add(time=ev_t, key=c.int('ks_k', 0, 11), mode=1)
+      ns.control_changes.add(time=ev_t, control_number=c.int('cc_n', 0, 127),
+                             control_value=c.int('cc_v', 0, 127), instrument=1)
+      ns.pitch_bends.add(time=ev_t, bend=c.int('pb_b', -8192, 8191),
+                         instrument=2)
   ns.tempos.add(time=0, qpm=100)
   before = c.snapshot(ns)
   res, err = c.raises(sl.rectify_beats, ns, bpm)
@@ -408,10 +668,19 @@ def h_rectify(c):
 
   out_beats = [a for a in rect.text_annotations if a.annotation_type == TA.BEAT]
   c.check(len(out_beats) == B, 'beat annotations kept')
+  rows = [list(r) for r in align.tolist()]
+  c.check(all(len(r) == 2 for r in rows), 'alignment rows are pairs')
   for a, b, u in zip(out_beats, beats, usable):
     if bool(u):
       k = [i for i, p in enumerate(uniq) if bool(c.eq(p, b))][0]
       c.check(c.approx(a.time, k * spb, 1e-9), 'beat lands on k*60/bpm')
+      # "each row contains the original and rectified times for a beat"
+      c.check(c.Or([c.And(c.eq(r[0], b), c.approx(r[1], k * spb, 1e-9))
+                    for r in rows] or [False]),
+              'alignment has a row (beat, k*60/bpm) for every usable beat')
+  for r in rows:
+    c.check(c.approx(r[1], g(r[0]), 1e-9),
+            'alignment rows pair a time with its rectified time')
   if len(rect.notes) == 1:
     n = notes[0]
     # (up to 1e-9: the code multiplies k * 60. / bpm in doubles, which is not
@@ -419,19 +688,56 @@ def h_rectify(c):
     c.check(c.And(c.approx(rect.notes[0].start_time, g(n['start_time']), 1e-9),
                   c.approx(rect.notes[0].end_time, g(n['end_time']), 1e-9)),
             'note mapped by the beat interpolation')
+    c.check(c.And(c.eq(rect.notes[0].pitch, n['pitch']),
+                  c.eq(rect.notes[0].velocity, n['velocity'])),
+            'pitch and velocity of the note unchanged')
+    c.check(c.approx(rect.total_time, g(n['end_time']), 1e-9),
+            'total_time = rectified end of the last surviving note')
   else:
+    c.check(len(rect.notes) == 0, 'no note invented')
     c.check(bool(c.eq(g(notes[0]['start_time']), g(notes[0]['end_time']))),
             'only a collapsed note is dropped')
+    c.check(c.eq(rect.total_time, 0),
+            'total_time = rectified end of the last surviving note')
   c.check(len(rect.tempos) == 1 and bool(c.eq(rect.tempos[0].qpm, bpm)),
           'single tempo = requested bpm')
+  c.check(c.eq(rect.tempos[0].time, 0), 'the single tempo is at time 0')
   c.check(len(rect.time_signatures) == 0, 'time signatures deleted')
+  if extras:
+    others = [a for a in rect.text_annotations
+              if a.annotation_type != TA.BEAT]
+    c.check(len(others) == 1 and len(rect.key_signatures) == 1 and
+            len(rect.control_changes) == 1 and len(rect.pitch_bends) == 1,
+            'one event of every other kind kept, none invented')
+    got = [others[0], rect.key_signatures[0], rect.control_changes[0],
+           rect.pitch_bends[0]]
+    src = [ns.text_annotations[1], ns.key_signatures[0], ns.control_changes[0],
+           ns.pitch_bends[0]]
+    for a, b in zip(got, src):
+      e = copy.deepcopy(b)
+      e.time = a.time
+      c.check(c.msg_eq(a, e), 'events keep everything but their time')
+    # (times past total_time are outside the documented interpolation range:
+    # nothing is asserted about them)
+    if bool(ev_t <= tt):
+      m = g(ev_t)
+      c.check(c.And([c.approx(a.time, m, 1e-9) for a in got]),
+              'every event mapped by the beat interpolation')
+      c.cover('an event strictly between two grid points',
+              c.And(ev_t > uniq[0], ev_t < uniq[-1]))
   c.cover('accepted')
 
 
 def h_rectify_quantized(c):
   pb, sl = c.pb, c.mod('sequences_lib')
+  TA = pb.NoteSequence.TextAnnotation
   ns = pb.NoteSequence()
-  ns.quantization_info.steps_per_second = c.int('sps', 1, 100)
+  if c.choice('kind', ['absolute', 'relative']) == 'absolute':
+    ns.quantization_info.steps_per_second = c.int('sps', 1, 100)
+  else:
+    ns.quantization_info.steps_per_quarter = c.int('spq', 1, 96)
+  ns.total_time = 1
+  ns.text_annotations.add(time=0.5, annotation_type=TA.BEAT)
   res, err = c.raises(sl.rectify_beats, ns, 120)
   c.check(err is not None and isinstance(err, sl.QuantizationStatusError),
           'quantized input rejected')
@@ -442,6 +748,7 @@ HARNESSES = {
     'h_stretch': h_stretch,
     'h_stretch_quantized': h_stretch_quantized,
     'h_concat': h_concat,
+    'h_concat_meta': h_concat_meta,
     'h_concat_mismatch': h_concat_mismatch,
     'h_repeat': h_repeat,
     'h_adjust': h_adjust,
@@ -462,6 +769,9 @@ def jobs(tier):
   add('h_shift', N=2)
   add('h_stretch', N=1)
   add('h_stretch', N=2)
+  add('h_stretch', N=1, in_place=True)
+  add('h_shift', N=1, two=True)
+  add('h_stretch', N=1, two=True)
   add('h_stretch_quantized')
   add('h_concat', M=1, N=1, durations=False)
   add('h_concat', M=2, N=1, durations=False)
@@ -473,9 +783,16 @@ def jobs(tier):
   # a state value that returns (A-B-A) or is restated (A-B-B) across pieces
   add('h_concat', M=3, N=1, durations=False, lean='tempo', budget=900)
   add('h_concat', M=3, N=1, durations=True, lean='key', budget=900)
+  add('h_concat', M=3, N=1, durations=False, lean='meter', budget=900)
+  add('h_concat', M=3, N=1, durations=True, lean='mode', budget=900)
+  add('h_concat', M=1, N=1, durations=True)
+  add('h_concat', M=5, N=1, durations=True, lean=True, budget=900)
+  add('h_concat_meta', M=2)
   add('h_concat_mismatch')
   add('h_repeat', N=1, seq_dur=False, max_rep=2)
   add('h_repeat', N=1, seq_dur=True, max_rep=2)
+  add('h_repeat', N=1, seq_dur=False, max_rep=2, events=True)
+  add('h_repeat', N=1, seq_dur=True, max_rep=3, events=True, budget=300)
   slopes = [[0, 1], [1, 2], [1, 1], [2, 1], [-1, 1]]
   for m1, m2 in [(1, 2), (2, 0), (3, 1), (2, 4), (0, 2)]:
     add('h_adjust', N=1, m1=slopes[m1], m2=slopes[m2])
@@ -483,8 +800,19 @@ def jobs(tier):
   add('h_adjust', N=2, m1=slopes[2], m2=slopes[0])
   add('h_adjust', N=1, m1=slopes[2], m2=slopes[0], min_dur=True)
   add('h_adjust', N=1, m1=slopes[2], m2=slopes[0], min_dur='zero')
+  # one note collapses and the other does not / both collapse, with a minimum
+  add('h_adjust', N=2, m1=slopes[2], m2=slopes[0], min_dur=True, budget=300)
+  add('h_adjust', N=2, m1=slopes[2], m2=slopes[0], min_dur='zero', budget=300)
+  # reversing segment first / last with two notes
+  add('h_adjust', N=2, m1=slopes[4], m2=slopes[2], budget=300)
+  add('h_adjust', N=2, m1=slopes[2], m2=slopes[4], budget=300)
+  # two events of every kind + section groups
+  add('h_adjust', N=1, m1=slopes[1], m2=slopes[3], two=True, budget=300)
   add('h_rectify', B=1, bpm=60)
   add('h_rectify', B=2, bpm=120)
+  add('h_rectify', B=1, bpm=120, extras=True)
+  add('h_rectify', B=2, bpm=60, extras=True)
+  add('h_rectify', B=1, bpm=97)
   add('h_rectify_quantized')
   if deep:
     add('h_shift', N=3, budget=900)
@@ -501,4 +829,12 @@ def jobs(tier):
       add('h_adjust', N=2, m1=slopes[m1], m2=slopes[m2], budget=1800)
     add('h_rectify', B=3, bpm=97, budget=1800, required=False)
     add('h_rectify', B=2, bpm=60, budget=900)
+    add('h_stretch', N=2, in_place=True, two=True, budget=900)
+    add('h_shift', N=2, two=True, budget=900)
+    add('h_concat_meta', M=3, budget=900)
+    add('h_concat', M=2, N=2, durations=False, budget=1800)
+    add('h_repeat', N=2, seq_dur=True, max_rep=3, events=True, budget=1800)
+    add('h_adjust', N=2, m1=slopes[1], m2=slopes[3], two=True, budget=1800)
+    add('h_adjust', N=2, m1=slopes[1], m2=slopes[0], min_dur=True, budget=1800)
+    add('h_rectify', B=2, bpm=97, extras=True, budget=1800, required=False)
   return J
